@@ -36,8 +36,8 @@ PROPS["C17"] = dict(
         SC_NOTE,
     ],
     runs=[
-        run("observables", "c17_rc", "obs_model", "rc", dict(procs=10, cases=15000), dict(procs=16, cases=120000)),
-        run("sync-gauge-storage", "c17_rc", "sync_gauge_storage", "rc", dict(procs=4, cases=20000),
+        run("observables", "c17_rc", "obs_model", "rc", dict(procs=10, cases=12000), dict(procs=16, cases=120000)),
+        run("sync-gauge-storage", "c17_rc", "sync_gauge_storage", "rc", dict(procs=4, cases=15000),
             dict(procs=8, cases=120000)),
         run("sync-gauge-e2e-abi2", "c17_rc_abi2", "sync_gauge_e2e", "rc", None, dict(procs=8, cases=100000)),
         run("observables-abi2", "c17_rc_abi2", "obs_model", "rc", None, dict(procs=6, cases=60000)),
